@@ -28,7 +28,8 @@ LEVEL_NOTE = 'Trusted: Python equality of the loaded objects; the in-memory devi
 TECHNIQUE = 'stateless bounded-exhaustive exploration of inputs x short-read schedules against the identity round-trip'
 
 NOWHERE = '/nonexistent-directory-c19/name.json'      # a name only the custom open_obj can resolve
-VALUES = [0, -1, 2 ** 63 - 1, -2 ** 63, 1.5, 1e-7, True, None, '', 'a', 'é\U0001F600', 'line\nbreak', 'q"uote\\', [1, [2]], {'k': {}}]
+VALUES = [0, -1, 2 ** 63 - 1, -2 ** 63, 1.5, 1e-7, True, None, '', 'a', 'é\U0001F600', 'line\nbreak', 'q"uote\\', [1, [2]], {'k': {}},
+          'x [NaN,Infinity] y :NaN, [-Infinity]', '\ufeffbom\ufeff']
 COMP = [None, 'gzip', 'zstd']
 
 
@@ -39,6 +40,7 @@ def bounds(tier):
 def object_lists(tier):
     objs = [{'a': v} for v in VALUES]
     out = [[]] + [[o] for o in objs] + [[{}], [{}, {'a': 0}, {}], [{'a': {}}, {'b': []}, {'c': ''}]]
+    out.append([{'a': 'x' * 70000}, {'b': '\u00e9"\n' * 30000}])
     out.append([{'i': i, 's': '\u00e9' * (i % 7), 'n': [i, {'k': None}] if i % 3 else []} for i in range(300)])
     pairs = list(itertools.product(range(len(VALUES)), repeat=2))
     step = 3 if tier == 'quick' else 1
@@ -67,6 +69,8 @@ def cases(unit):
     else:
         for off in range(-6, 6):
             yield {'fam': 'file', 'comp': unit['comp'], 'offset': off}
+        for off in range(-4, 3):
+            yield {'fam': 'file', 'comp': unit['comp'], 'offset': off, 'feff': True}
         if unit['comp'] is None:
             for total in (65536, 65535, 65537, 131072):
                 yield {'fam': 'file', 'comp': None, 'offset': 0, 'total': total}
@@ -144,6 +148,8 @@ def run_file(case, acc):
     comp = case['comp']
     pad = 64 * 1024 + case['offset'] - len('{"a":"') 
     objs = [{'a': 'x' * pad + '\U0001F600' + 'tail'}, {'b': [1, 2, {'c': None}]}, {'a': 'é' * 40000}]
+    if case.get('feff'):
+        objs = [{'a': 'x' * pad + '\ufeff\ufeff' + 'tail'}, {'b': '\ufeff'}]
     if case.get('total'):
         # file of exactly `total` bytes: two lines, the second one ends exactly at the size
         first = {'k': 1}
